@@ -128,12 +128,16 @@ def check_case(case, ctx):
     elif name == "ConFIG":
         u = np.ones(m) if a["pref"] is None else np.array(a["pref"])
         cos = (J @ A) / (norms * max(nA, 1e-300))
-        ratio = cos / u
-        ctx.maximum(f"config_cosine_ratio_spread_{dname}", float(ratio.max() - ratio.min()) / max(abs(ratio).max(), 1e-300))
+        # "cosines proportional to the preference vector": cos_i = c u_i with c fitted by least squares; the deviation is measured in
+        # units of the largest cosine, so that a SMALL preference entry does not amplify the rounding of its (small) cosine
+        # (thorough seed 12: float32, 10^6 columns, pref 0.133 next to 1.869: ratio cos / u off by 0.5 % from rounding alone)
+        cfit = float(cos @ u) / float(u @ u)
+        dev = float(np.abs(cos - cfit * u).max()) / max(float(np.abs(cos).max()), 1e-300)
+        ctx.maximum(f"config_cosine_deviation_{dname}", dev)
         if (cos <= 0).any():
             vio = ("config_cosine_not_positive", {"cosines": cos.tolist()})
-        elif ratio.max() - ratio.min() > tau * abs(ratio).max():
-            vio = ("config_cosines_not_equal_or_not_proportional_to_pref", {"cosines": cos.tolist(), "pref": u.tolist()})
+        elif dev > tau:
+            vio = ("config_cosines_not_equal_or_not_proportional_to_pref", {"cosines": cos.tolist(), "pref": u.tolist(), "fitted_c": cfit, "deviation": dev})
         else:
             length = float((J @ (A / nA)).sum())
             ctx.maximum(f"config_length_{dname}", abs(length - nA) / nA)
